@@ -100,6 +100,9 @@ def gen_case(rng):
         opts['regex'] = rng.sample(['A', 'D', '^A', 'D[0-9]+$', '[OK]', 'A[0-9]+D', '^[^M]', 'Y1|X1', '^M$|A', r'^A\d+', r'\d\d', r'^(?!.*\d\d)', r'[A-Z]\d$', r'^\w+$', r'\D1', r'(?i)^a', r'^[ad0-9]+$'], rng.randint(1, 2))
     base.update({'opts': opts, 'copy': rng.random() < 0.5, 'hseed': rng.getrandbits(32)})
     # history: the same --copy name asked for again (re-run of the command, or a second tuning of the copy) with a filter that would remove something
+    if rng.random() < 0.5:
+        base['uni_name'] = rng.choice(['_José', '_пароли', '_ñ', '_中'])
+        base['narrow_stdout'] = rng.choice([None, 'ascii', 'ascii', 'latin-1'])
     base['again'] = rng.choice([None, None, {'max_length': rng.choice([4, 6, 8])}, {'min_length': rng.choice([3, 5])}, {'terminal_set': rng.sample(list('ADOKYX'), 2)}, {'regex': ['^A']}, dict(opts)])
     return base
 
@@ -112,8 +115,16 @@ def check_case(run, case, use_cli=False):
             repo.drop_rules(name); run.ev('trainings_not_completed'); run.inconc('training did not complete'); return
     else:
         name, path = gstream.materialise(case['spec'], 'c20')
-    copyname = name + '_copy'
     rules_dir = os.path.join(repo.scratch(), 'Rules')
+    narrow = None
+    if use_cli and case.get('uni_name'):
+        # rule names are free text: a non-ASCII one, and (half of the time) a standard output that cannot represent it.  The tool mentions the names in its
+        # messages; if a message cannot be printed the run may fail, but a failed run must not leave the ruleset half edited
+        new = name + case['uni_name']
+        os.rename(path, os.path.join(rules_dir, new))
+        name, path = new, os.path.join(rules_dir, new)
+        narrow = case.get('narrow_stdout')
+    copyname = name + '_copy'
     try:
         repo.scratch()
         import edit_rules as er
@@ -130,8 +141,26 @@ def check_case(run, case, use_cli=False):
                 args += ['--terminal_set', ','.join(x.lower() for x in opts['terminal_set'])]
             if opts.get('regex'):
                 args += ['--regex', ','.join(opts['regex'])]
-            out, err, rc, to = cli.run_cli('edit_rules.py', args, stdin_mode='devnull')
+            out, err, rc, to = cli.run_cli('edit_rules.py', args, stdin_mode='devnull', env={'PYTHONIOENCODING': narrow} if narrow else None)
             run.ev('cli_runs')
+            if narrow:
+                run.ev('cli_runs_with_a_narrow_stdout')
+            if not to and rc != 0 and narrow:
+                # could not print a message: acceptable, provided nothing was changed (in place: the ruleset is what it was; --copy: source untouched and the
+                # copy, if it was made, still holds the unedited list)
+                now = snapshot(path)
+                if now != before:
+                    ch = sorted(k for k in set(before) | set(now) if before.get(k) != now.get(k))
+                    run.violation(f'edit_rules.py {args} failed under a {narrow} standard output (rc {rc}) and left the ruleset changed: {ch[:4]} '
+                                  f'(grammar.txt now {os.path.getsize(os.path.join(path, "Grammar", "grammar.txt"))} bytes, was {len(orig_bytes)})', case,
+                                  observed=err[-200:].decode('utf-8', 'replace')); return
+                if case['copy'] and os.path.exists(os.path.join(target, 'Grammar', 'grammar.txt')) and open(os.path.join(target, 'Grammar', 'grammar.txt'), 'rb').read() not in (orig_bytes,):
+                    new_lines_ = oracles.read_rows(os.path.join(target, 'Grammar', 'grammar.txt'), 'ascii')
+                    keep_, _u = reference_filter(orig_lines, opts)
+                    if new_lines_ != [orig_lines[i] for i in keep_]:
+                        run.violation(f'edit_rules.py {args} failed under a {narrow} standard output (rc {rc}) and left a half-edited copy', case, observed=new_lines_[:6]); return
+                run.ev('failed_runs_that_changed_nothing')
+                return
             if to or rc != 0:
                 run.violation(f'edit_rules.py {args} failed (rc {rc})', case, observed=err[-300:].decode('utf-8', 'replace')); return
             log = []
